@@ -485,7 +485,7 @@ def gen_reject(rng, probe=None):
         dup[0] = entries[k][0]
         if rng.random() < 0.3:      # an exact copy
             dup = list(entries[k])
-        s.update(type=t, entries=entries, dup=dup, mode=rng.choice(['separate', 'same-call', 'same-object']))
+        s.update(type=t, entries=entries, dup=dup, mode=rng.choice(['separate', 'same-call', 'same-object', 'batch-internal']))
     elif probe == 'other-type-delegation':
         t = rng.choice(TYPES)
         s.update(type=t, entries=gen_entries(rng, t, n=rng.randrange(0, 3)) if rng.random() < 0.7 else [],
@@ -568,14 +568,24 @@ def case_reject(ctx, s):
             first = ds.get_by_delegation_id(s['dup'][0])
             dupo = first if s['mode'] == 'same-object' else build_delegation(t, *s['dup'])
             try:
-                if s['mode'] == 'same-call':
+                if s['mode'] == 'batch-internal':
+                    # both duplicates arrive in ONE call and their id is not in the set yet
+                    ctx.count('rej:duplicate-id:batch-internal')
+                    fresh = gen_extra_entry(s)
+                    d1 = build_delegation(t, *fresh)
+                    second = list(s['dup'])
+                    second[0] = fresh[0]
+                    d2 = build_delegation(t, *second)
+                    first = None
+                    ds.add_delegations(d1, d2)
+                elif s['mode'] == 'same-call':
                     extra = build_delegation(t, *gen_extra_entry(s))
                     ds.add_delegations(extra, dupo)
                 else:
                     ds.add_delegations(dupo)
             except Exception as e:
                 rejected(e)
-                if ds.get_by_delegation_id(s['dup'][0]) is not first:
+                if first is not None and ds.get_by_delegation_id(s['dup'][0]) is not first:
                     _v(ctx, 'C12/rejected-but-stored-duplicate-id', 'a rejected duplicate leaves the first entry in place',
                                   dict(w, before=before, observed=obs_delegations(ds)))
                 return
